@@ -20,7 +20,8 @@ for f in $OUT/*.py; do cp $f seeded/$ID/ 2>/dev/null; done
 RES=""
 echo "== our checks on the change"
 git -C /repo apply /verif/seeded/$ID/patch.diff || { echo "PATCH DOES NOT APPLY"; exit 3; }
-for C in $ID "$@"; do
+CHK=${ID%[a-z]}
+for C in $CHK "$@"; do
   ./vcheck $C > /tmp/seed/$ID.$C.vcheck.log 2>&1; RC=$?; echo "vcheck $C exit=$RC $(grep -c VIOLATION /tmp/seed/$ID.$C.vcheck.log) violation lines"; grep "key=" /tmp/seed/$ID.$C.vcheck.log | cut -c1-200 | head -4
   KEYS=$(grep "key=" /tmp/seed/$ID.$C.vcheck.log | sed 's/.*key=\([^ ]*\) .*/\1/' | sort -u | head -8 | tr '\n' ' ')
   RES="$RES$C:exit=$RC:$KEYS;"
@@ -32,7 +33,7 @@ import json, sys, os
 pid, tests, dw, dwo, res = sys.argv[1:6]
 d = '/verif/seeded/' + pid
 notes = open(d + '/notes.md').read() if os.path.exists(d + '/notes.md') else ''
-meta = {'property': pid, 'origin': 'independent sub-agent given only the property text and a scratch worktree',
+meta = {'property': pid.rstrip('abcdefgh'), 'seed_id': pid, 'origin': 'independent sub-agent given only the property text and a scratch worktree',
         'needs_to_manifest': 'see notes.md', 'confirmed': {
             'existing_test_suite_with_change': tests, 'demo_exit_with_change': int(dw), 'demo_exit_without_change': int(dwo)},
         'our_checks_on_change': [r for r in res.split(';') if r],
